@@ -52,7 +52,9 @@ def run(ctx):
     res = Result()
     res.rule = ("every base case is evaluated unbounded, then with thresholds just below / just above / far from the "
                 "true internal distance (odd half-lattice thresholds, never inside the rounding neighbourhood) and with "
-                "use_pruning where the Euclidean distance is a valid bound; both engines, distance / warping_paths; "
+                "use_pruning where the Euclidean distance is a valid bound, and with both at once; both engines, distance / "
+                "warping_paths; distance matrices (lists and 2-D arrays) with use_pruning / max_dist / both; real-valued "
+                "stream where pruning on/off must be bit-identical (window 1, shifted copies, random walks); "
                 "non-trivial = threshold within 2 lattice steps of the distance or pruning actually skipped cells")
     lib = native.load("plain")
     bases = base_cases(ctx)
@@ -74,6 +76,8 @@ def run(ctx):
             derived.append((dict(case, max_dist_I=m), T, "maxdist"))
         if ub_valid(case):
             derived.append((dict(case, use_pruning=True), T, "prune"))
+            # both options at once: the user's threshold still decides
+            derived.append((dict(case, use_pruning=True, max_dist_I=ctx.rng.choice(places)), T, "both"))
     ops = [dc.lean_op(c, engine="py") for c, _t, _k in derived] + [dc.lean_op(c, engine="c") for c, _t, _k in derived]
     outs = ctx.driver.run(ops)
     n = len(derived)
@@ -83,7 +87,7 @@ def run(ctx):
         py = impl.py_distance(case, "numpy", fast=False)
         cy = impl.py_distance(case, "numpy", fast=True)
         # expected by the property
-        if kind == "maxdist":
+        if kind in ("maxdist", "both"):
             m = case["max_dist_I"]
             exp = dc.expected_from_internal(case, T) if (T != "inf" and T < m) else math.inf
             near = T != "inf" and abs(T - m) <= 3
@@ -93,10 +97,22 @@ def run(ctx):
         exp = impl.canon(exp)
         if near:
             res.nontrivial.add(dc.case_key(case))
-            res.hit("near_threshold" if kind == "maxdist" else "dtw_eq_ed")
+            res.hit("near_threshold" if kind != "prune" else "dtw_eq_ed")
         res.hit(kind)
         res.sample({"case": case, "unbounded_internal": T, "python": py, "c": cy, "expected": exp})
-        for eng, val, out in (("python distance", py, outp), ("C distance_fast", cy, outc)):
+        routes = [("python distance", py, outp), ("C distance_fast", cy, outc)]
+        if i % 2 == 0:
+            routes += [("python warping_paths", wps_distance(case, False), None),
+                       ("C warping_paths_fast", wps_distance(case, True), None)]
+        for eng, val, out in routes:
+            if out is None:
+                res.hit("route_" + eng.split()[1])
+                if val != exp and not c02_agree(val, exp):
+                    res.violations.append({"clause": "max_dist/use_pruning must give the unbounded distance or inf "
+                                                     "(accumulated-cost matrix routine)",
+                                           "kind": kind, "engine": eng, "case": case, "unbounded_internal_x2": T,
+                                           "got": val, "expected": exp, "kwargs": repr(dc.py_kwargs(case))})
+                continue
             if val != exp and not c02_agree(val, exp):
                 if classify_known(ctx, res, case, eng, val, exp, out):
                     continue
@@ -108,7 +124,153 @@ def run(ctx):
                 mval = impl.canon(dc.expected_from_internal(case, out["model"]))
                 if val != mval and not c02_agree(val, mval):
                     res.mismatches.append({"case": case, "engine": eng, "impl": val, "model": mval})
+    matrix_routes(ctx, res)
+    float_stream(ctx, res)
     return res
+
+
+def wps_distance(case, use_c):
+    from dtaidistance import dtw, dtw_ndim
+    nd = case.get("ndim", 1)
+    kw = dc.py_kwargs(case)
+    s1 = impl.to_container(case["s1"], "numpy", nd)
+    s2 = impl.to_container(case["s2"], "numpy", nd)
+    mod = dtw if nd == 1 else dtw_ndim
+    try:
+        f = mod.warping_paths_fast if use_c else mod.warping_paths
+        return impl.canon(f(s1, s2, **kw)[0])
+    except BaseException as e:
+        if isinstance(e, (KeyboardInterrupt, SystemExit)):
+            raise
+        return impl.exc_name(e)
+
+
+def matrix_routes(ctx, res):
+    """inside distance matrices: use_pruning leaves every entry unchanged, max_dist turns exactly the entries above it
+    into inf; integer-lattice collections (thresholds on the half lattice), both engines, lists and 2-D arrays"""
+    import numpy as np
+    from dtaidistance import dtw
+    rng = ctx.rng
+    for it in range(400 if ctx.thorough else 60):
+        n = rng.randint(2, 6)
+        equal = rng.random() < 0.6
+        ln = rng.randint(1, 8)
+        series = [dc.rand_series(rng, ln if equal else rng.randint(1, 8)) for _ in range(n)]
+        if rng.random() < 0.4:       # DTW == ED family: shifted copies
+            d0 = rng.choice([1, 2, 3])
+            series = [[x + d0 * k for x in series[0]] for k in range(n)]
+            equal = True
+        kw = {}
+        if rng.random() < 0.6:
+            kw["window"] = rng.choice([1, 1, 2, 3])
+        if rng.random() < 0.3 and equal:
+            kw["penalty"] = float(rng.choice([1, 2]))
+        inner = rng.choice(["sq", "sq", "abs"])
+        if inner == "abs":
+            kw["inner_dist"] = "euclidean"
+        arrs = [np.array(x, dtype=np.double) for x in series]
+        cont = np.array(series, dtype=np.double) if (equal and rng.random() < 0.5) else arrs
+        info = {"series": series, "kwargs": repr(kw), "container": "matrix" if isinstance(cont, np.ndarray) else "list"}
+        for use_c in (False, True):
+            res.evaluations += 1
+            res.hit("matrix_" + ("c" if use_c else "py"))
+            try:
+                base = dtw.distance_matrix(cont, use_c=use_c, compact=True, **kw)
+                pr = dtw.distance_matrix(cont, use_c=use_c, compact=True, use_pruning=True, **kw)
+                fin = sorted(set(float(x) for x in base if not math.isinf(x)))
+                m = None
+                if fin:
+                    v = rng.choice(fin)
+                    internal = round(v * v) if inner == "sq" else round(v)
+                    mi = max(0.5, internal + rng.choice([-0.5, 0.5]))
+                    m = math.sqrt(mi) if inner == "sq" else mi
+                    md = dtw.distance_matrix(cont, use_c=use_c, compact=True, max_dist=m, **kw)
+                    both = dtw.distance_matrix(cont, use_c=use_c, compact=True, max_dist=m, use_pruning=True, **kw)
+            except BaseException as e:
+                if isinstance(e, (KeyboardInterrupt, SystemExit)):
+                    raise
+                res.violations.append(dict(info, clause="distance_matrix raised", engine="C" if use_c else "python",
+                                           got=impl.exc_name(e) + ":" + str(e)[:100]))
+                continue
+            res.nontrivial.add(repr((series, sorted(kw.items()), use_c)))
+            if not np.array_equal(np.asarray(base), np.asarray(pr)):
+                res.violations.append(dict(info, clause="use_pruning inside a distance matrix gives exactly the entries "
+                                                        "obtained with pruning disabled", engine="C" if use_c else "python",
+                                           unpruned=[impl.canon(x) for x in base], pruned=[impl.canon(x) for x in pr]))
+            if m is not None:
+                want = [x if x < m else math.inf for x in base]
+                for nm, got in (("max_dist", md), ("max_dist+use_pruning", both)):
+                    if [impl.canon(x) for x in got] != [impl.canon(x) for x in want]:
+                        res.violations.append(dict(info, clause="%s inside a distance matrix: entries below the threshold "
+                                                                "unchanged, entries above it inf" % nm,
+                                                   engine="C" if use_c else "python", max_dist=m,
+                                                   unbounded=[impl.canon(x) for x in base],
+                                                   got=[impl.canon(x) for x in got]))
+
+
+def float_stream(ctx, res):
+    """real-valued series: use_pruning gives bit-identical results to pruning disabled in every routine of an engine,
+    in particular where DTW coincides with the Euclidean distance (window=1 / shifted copies)"""
+    import numpy as np
+    from dtaidistance import dtw
+    rng = ctx.rng
+    for it in range(600 if ctx.thorough else 80):
+        n = rng.randint(2, 6)
+        ln = rng.randint(1, 12)
+        fam = rng.choice(["rand", "shift", "walk"])
+        if fam == "shift":
+            b = [rng.uniform(-2, 2) for _ in range(ln)]
+            series = [[x + 0.37 * k for x in b] for k in range(n)]
+        elif fam == "walk":
+            series = []
+            for _ in range(n):
+                x, row = 0.0, []
+                for _ in range(ln):
+                    x += rng.gauss(0, 1)
+                    row.append(x)
+                series.append(row)
+        else:
+            series = [[rng.uniform(-1, 1) for _ in range(ln)] for _ in range(n)]
+        kw = {}
+        w = rng.choice([None, 1, 1, 2])
+        if w is not None:
+            kw["window"] = w
+        if rng.random() < 0.3:
+            kw["inner_dist"] = "euclidean"
+        cont = np.array(series, dtype=np.double)
+        if rng.random() < 0.5:
+            cont = [np.array(x, dtype=np.double) for x in series]
+        info = {"series": series, "kwargs": repr(kw)}
+        for use_c in (False, True):
+            res.evaluations += 1
+            res.hit("float_" + fam)
+            eng = "C" if use_c else "python"
+            try:
+                base = np.asarray(dtw.distance_matrix(cont, use_c=use_c, compact=True, **kw))
+                pr = np.asarray(dtw.distance_matrix(cont, use_c=use_c, compact=True, use_pruning=True, **kw))
+                a, b = np.array(series[0]), np.array(series[-1])
+                d0 = dtw.distance(a, b, use_c=use_c, **kw)
+                d1 = dtw.distance(a, b, use_c=use_c, use_pruning=True, **kw)
+                w0 = dtw.warping_paths(a, b, use_c=use_c, **kw)[0]
+                w1 = dtw.warping_paths(a, b, use_c=use_c, use_pruning=True, **kw)[0]
+            except BaseException as e:
+                if isinstance(e, (KeyboardInterrupt, SystemExit)):
+                    raise
+                res.violations.append(dict(info, clause="raised", engine=eng, got=impl.exc_name(e) + ":" + str(e)[:100]))
+                continue
+            res.nontrivial.add(repr((series, sorted(kw.items()), use_c)))
+            if not np.array_equal(base, pr):
+                res.violations.append(dict(info, clause="use_pruning inside a distance matrix gives exactly the entries "
+                                                        "obtained with pruning disabled (real-valued series)", engine=eng,
+                                           unpruned=base.tolist(), pruned=[impl.canon(x) for x in pr]))
+            if float(d0) != float(d1):
+                res.violations.append(dict(info, clause="use_pruning gives exactly the distance obtained with pruning "
+                                                        "disabled (real-valued pair)", engine=eng, unpruned=float(d0),
+                                           pruned=impl.canon(d1)))
+            if float(w0) != float(w1):
+                res.violations.append(dict(info, clause="use_pruning gives exactly the distance obtained with pruning "
+                                                        "disabled (warping_paths, real-valued pair)", engine=eng,
+                                           unpruned=float(w0), pruned=impl.canon(w1)))
 
 
 def c02_agree(a, b):
